@@ -37,7 +37,7 @@ if earlier:
              '240x320, 480x272, 800x600, 1024 px); behaviour that depends on the draw target (its bounding box, position, size, an adapter in '
              'front of it); inputs on the far side of zero (negative coordinates, objects left of / above the origin); and interactions between '
              'two built-in components (an adapter plus a drawable, a sub-image of a sub-image, a font plus a decoration, a framebuffer used as an '
-             'image); specialised `Iterator` methods (`nth`, `size_hint`, `fold`, `count`, `last`) and `Clone`/`Default`/`From` implementations that must agree with the plain ones; caches, memos and fast paths added as optimisations; arithmetic that only misbehaves in release builds (silent wrap-around) or only in debug builds (overflow panic); data or sizes that alias (multiples of 8, 256 or 65536); and behaviour that differs between the first and a later use of the same object. Do not use the `fixed_point` cargo feature. Never run `pkill`/`killall` (other engineers share this machine). If after a '
+             'image); specialised `Iterator` methods (`nth`, `size_hint`, `fold`, `count`, `last`) and `Clone`/`Default`/`From` implementations that must agree with the plain ones; caches, memos and fast paths added as optimisations; arithmetic that only misbehaves in release builds (silent wrap-around) or only in debug builds (overflow panic); data or sizes that alias (multiples of 8, 256 or 65536); and behaviour that differs between the first and a later use of the same object. Do not use the `fixed_point` cargo feature. Never run `pkill`/`killall` and never use `git stash` (other engineers share this machine and the stash is shared between worktrees; use `git diff > file` and `git apply` instead). If after a '
              'serious search you can only find one acceptable change, deliver one.')
     if rnd >= 7:
         extra += (' For THIS round in particular: read the statement sentence by sentence and attack the clause that is LEAST represented in the list above; '
